@@ -3,7 +3,7 @@ import itertools
 import json
 import multiprocessing as mp
 
-from .. import e1, oracles
+from .. import e1, e3, oracles
 from ..asm import G, INST, SG, alphabet, asm, sbu
 from ..common import Report, ncpu
 from .c03 import _fold
@@ -63,10 +63,22 @@ def check(tier):
     depth = 5 if tier == "thorough" else 4
     cfg = e1.Config(PROP, alphabet(CORE, GROUP), depth, [], [oracles.c19_total], split=2)
     e1.run(cfg, rep)
+    # programs whose decompilation contains other statement shapes (subscript assignment, update(), __setstate__ ...)
+    rep2 = Report(PROP, tier)
+    shapes = alphabet("STR K1 ETUP EDICT ELIST MARK REDUCE NEWOBJ BUILD SETITEM SETITEMS APPEND MEMOIZE BINGET0 POP".split(),
+                      [G("collections", "OrderedDict"), G("m", "eval")])
+    cfg2 = e1.Config(PROP, shapes, depth + 1, [], [oracles.c19_total], split=2)
+    e1.run(cfg2, rep2)
+    _fold(rep, rep2, "shapes")
+    from .. import corpus
+
     items = list(programs())
+    for i, v in enumerate(corpus.object_values()[:-1] + corpus.plain_values("quick")[::5]):
+        for tag, b in corpus.pickles_of(v, unframed=False):
+            items.append((f"corpus[{i}]/{tag}", b))
     total = e1.Out()
     with mp.get_context("fork").Pool(ncpu()) as pool:
-        for o in pool.imap_unordered(_one, items, chunksize=128):
+        for o in pool.imap_unordered(e3._Guard(_one, PROP), items, chunksize=128):
             total.merge(o)
     for k, v in total.stats.items():
         rep.add("product_" + k, v)
